@@ -107,7 +107,11 @@ func extractVariant(info *types.Info, stmts []ast.Stmt, v *TemplVariant) {
 				if f := CalleeOf(info, call); f != nil && f.Pkg() != nil && f.Pkg().Path() == "fmt" && f.Name() == "Fprintf" && len(call.Args) >= 2 {
 					if tv, ok := info.Types[call.Args[1]]; ok && tv.Value != nil && tv.Value.Kind() == constant.String {
 						l := TemplLine{Format: constant.StringVal(tv.Value), Pos: call}
-						for _, a := range call.Args[2:] {
+						args := call.Args[2:]
+						if templResolve != nil {
+							l.Format, args = templSubstitute(l.Format, args)
+						}
+						for _, a := range args {
 							l.Args = append(l.Args, types.ExprString(a))
 						}
 						v.Lines = append(v.Lines, l)
@@ -154,6 +158,7 @@ func ExtractTemplArms(pk *packages.Package, fd *ast.FuncDecl, ins map[string]str
 				continue
 			}
 			ta := TemplArm{Tok: k.Name, Mnemonic: m, Arm: arm}
+			templResolve = templTableResolver(pk, sw, arm.Body, k.Name)
 			if isPanicOnly(info, arm.Body) || isUnsupportedReturn(info, arm.Body) {
 				ta.Fatal = true
 				out = append(out, ta)
@@ -194,7 +199,168 @@ func ExtractTemplArms(pk *packages.Package, fd *ast.FuncDecl, ins map[string]str
 			out = append(out, ta)
 		}
 	}
+	templResolve = nil
 	return out, sw
+}
+
+// templResolve answers the string a `%s` argument stands for in the arm being read, when that is a static fact: the
+// arm serves several instruction tokens and takes the varying part of its text from a package-level table indexed by
+// the token (`op := cmpTable[tok]; fmt.Fprintf(w, "    %s al\n", op.setcc)`). For the token under consideration the
+// table entry is read from the table's composite literal.
+var templResolve func(ast.Expr) (string, bool)
+
+// templSubstitute replaces the `%s` verbs whose arguments resolve; the other verbs keep their arguments.
+func templSubstitute(format string, args []ast.Expr) (string, []ast.Expr) {
+	var out strings.Builder
+	var rest []ast.Expr
+	ai := 0
+	for i := 0; i < len(format); i++ {
+		if format[i] != '%' || i+1 >= len(format) {
+			out.WriteByte(format[i])
+			continue
+		}
+		if format[i+1] == '%' {
+			out.WriteString("%%")
+			i++
+			continue
+		}
+		// a verb: flags/width up to the verb letter
+		j := i + 1
+		for j < len(format) && strings.IndexByte("+-# 0123456789.", format[j]) >= 0 {
+			j++
+		}
+		if j >= len(format) || ai >= len(args) {
+			out.WriteString(format[i:])
+			break
+		}
+		if format[j] == 's' && j == i+1 {
+			if s, ok := templResolve(args[ai]); ok {
+				out.WriteString(strings.ReplaceAll(s, "%", "%%"))
+				ai++
+				i = j
+				continue
+			}
+		}
+		out.WriteString(format[i : j+1])
+		rest = append(rest, args[ai])
+		ai++
+		i = j
+	}
+	return out.String(), append(rest, args[min(ai, len(args)):]...)
+}
+
+// templTableResolver builds the resolver for one arm and one token constant.
+func templTableResolver(pk *packages.Package, sw *ast.SwitchStmt, body []ast.Stmt, tokName string) func(ast.Expr) (string, bool) {
+	info := pk.TypesInfo
+	tag := ""
+	if sw.Tag != nil {
+		tag = types.ExprString(sw.Tag)
+	}
+	// the table entry for tokName: value expression of the element keyed by that constant
+	entryOf := func(tbl ast.Expr) ast.Expr {
+		id, ok := ast.Unparen(tbl).(*ast.Ident)
+		if !ok {
+			return nil
+		}
+		v, ok := info.Uses[id].(*types.Var)
+		if !ok || v.Parent() != pk.Types.Scope() {
+			return nil
+		}
+		for _, f := range pk.Syntax {
+			for _, d := range f.Decls {
+				gd, ok := d.(*ast.GenDecl)
+				if !ok {
+					continue
+				}
+				for _, sp := range gd.Specs {
+					vs, ok := sp.(*ast.ValueSpec)
+					if !ok {
+						continue
+					}
+					for i, nm := range vs.Names {
+						if info.Defs[nm] != v || i >= len(vs.Values) {
+							continue
+						}
+						cl, ok := vs.Values[i].(*ast.CompositeLit)
+						if !ok {
+							return nil
+						}
+						for _, el := range cl.Elts {
+							if kv, ok := el.(*ast.KeyValueExpr); ok && constOfExpr(info, kv.Key).Name == tokName {
+								return kv.Value
+							}
+						}
+					}
+				}
+			}
+		}
+		return nil
+	}
+	// locals defined as table[tag]
+	entries := map[types.Object]ast.Expr{}
+	for _, s := range body {
+		as, ok := s.(*ast.AssignStmt)
+		if !ok || len(as.Lhs) < 1 || len(as.Rhs) != 1 {
+			continue
+		}
+		ix, ok := ast.Unparen(as.Rhs[0]).(*ast.IndexExpr)
+		if !ok || tag == "" || types.ExprString(ix.Index) != tag {
+			continue
+		}
+		if e := entryOf(ix.X); e != nil {
+			if o := identObj(info, as.Lhs[0]); o != nil {
+				entries[o] = e
+			}
+		}
+	}
+	str := func(e ast.Expr) (string, bool) {
+		if tv, ok := info.Types[e]; ok && tv.Value != nil && tv.Value.Kind() == constant.String {
+			return constant.StringVal(tv.Value), true
+		}
+		return "", false
+	}
+	return func(a ast.Expr) (string, bool) {
+		switch x := ast.Unparen(a).(type) {
+		case *ast.IndexExpr: // table[tag] with string values
+			if tag != "" && types.ExprString(x.Index) == tag {
+				if e := entryOf(x.X); e != nil {
+					return str(e)
+				}
+			}
+		case *ast.SelectorExpr: // entry.field
+			e := entries[identObj(info, x.X)]
+			if e == nil {
+				if ix, ok := ast.Unparen(x.X).(*ast.IndexExpr); ok && tag != "" && types.ExprString(ix.Index) == tag {
+					e = entryOf(ix.X)
+				}
+			}
+			cl, ok := e.(*ast.CompositeLit)
+			if !ok {
+				return "", false
+			}
+			sel, ok := info.Selections[x]
+			if !ok || sel.Kind() != types.FieldVal || len(sel.Index()) != 1 {
+				return "", false
+			}
+			fi := sel.Index()[0]
+			for i, el := range cl.Elts {
+				if kv, ok := el.(*ast.KeyValueExpr); ok {
+					if k, ok := kv.Key.(*ast.Ident); ok && k.Name == x.Sel.Name {
+						return str(kv.Value)
+					}
+					continue
+				}
+				if i == fi {
+					return str(el)
+				}
+			}
+		case *ast.Ident: // a local entry that is itself a string
+			if e := entries[identObj(info, x)]; e != nil {
+				return str(e)
+			}
+		}
+		return "", false
+	}
 }
 
 func isUnsupportedReturn(info *types.Info, stmts []ast.Stmt) bool {
